@@ -270,6 +270,23 @@ class FnText:
                     return
         raise Unsupported(f'{self.name}: @derefcmp {a} {b} {n}: comparison not found')
 
+    def wrapexpr(self, n, old, call, sig):
+        """T5b: an expression Verus cannot take is moved, verbatim, into an external_body helper whose body
+        IS that expression; the call replaces it.  Returns the helper text."""
+        otoks = [t.text for t in tokenize(old) if t.kind not in ('ws', 'lcomment', 'bcomment')]
+        seen = 0
+        for i in range(len(self.s) - len(otoks) + 1):
+            if self.stok(i).start < self.body_open:
+                continue
+            if all(self.stok(i + k).text == otoks[k] for k in range(len(otoks))):
+                seen += 1
+                if seen == n:
+                    a, b = self.stok(i).start, self.stok(i + len(otoks) - 1).end
+                    body = self.text[a:b]
+                    self.edits.append((a, b, call, ('T5b', sig)))
+                    return f'\n#[verifier::external_body]\n{sig} {{ {body} }}\n'
+        raise Unsupported(f'{self.name}: @wrapexpr {n}: expression not found')
+
     # T4 -------------------------------------------------------------------
     def add_sig(self, text, origin):
         self.edits.append((self.body_open, self.body_open, '\n' + text.rstrip() + '\n', origin))
@@ -720,6 +737,7 @@ def process_extract(block_text, tmpl_path, tmpl_line, report):
             'end_line': src.count('\n', 0, end) + 1, 'logging_removed': nlog, 'clauses': 0,
             'directives': []}
     lets = {}
+    helpers = []
     for d, arg, payload, ln in items:
         if d == 'closurelet':
             mm = re.match(r'(\d+)\s+(.*)$', arg, re.S)
@@ -755,6 +773,18 @@ def process_extract(block_text, tmpl_path, tmpl_line, report):
             ft.replace(int(m.group(1)), m.group(2), m.group(3))
         elif d == 'ret':
             ft.name_ret(arg.strip())
+        elif d == 'as':
+            # exec canary: the same real body under another name with a deliberately wrong contract
+            for i2 in range(len(ft.s) - 1):
+                if ft.stok(i2).text == 'fn' and ft.stok(i2 + 1).text == name:
+                    ft.edits.append((ft.stok(i2 + 1).start, ft.stok(i2 + 1).end, arg.strip(), ('T4', 'as')))
+                    info['fn_as'] = arg.strip()
+                    break
+        elif d == 'wrapexpr':
+            mm = re.match(r'(\d+)\s+`(.*)`\s*=>\s*`(.*)`\s+with\s+(.*)$', arg + (' ' + payload.strip() if payload.strip() else ''), re.S)
+            if not mm:
+                raise Unsupported(f'{tmpl_path}:{ln}: bad @wrapexpr')
+            helpers.append(ft.wrapexpr(int(mm.group(1)), mm.group(2), mm.group(3), mm.group(4).strip()))
         elif d == 'derefcmp':
             parts_ = arg.split()
             ft.derefcmp(parts_[0], parts_[1], int(parts_[2]) if len(parts_) > 2 else 1)
@@ -796,7 +826,10 @@ def process_extract(block_text, tmpl_path, tmpl_line, report):
         else:
             raise Unsupported(f'{tmpl_path}:{ln}: unknown directive @{d}')
     report['functions'].append(info)
-    return ft.render(), info
+    pieces = ft.render()
+    for h in helpers:
+        pieces.append((h, ('inj', 'wrapexpr helper')))
+    return pieces, info
 
 
 def strip_wrapper(ty, name):
